@@ -12,7 +12,7 @@ import copy
 from dataclasses import dataclass, field
 from typing import Callable, Dict, List, Optional, Sequence, Set, Tuple
 
-from .srcmodel import AnalysisError, dotted_name, norm
+from .srcmodel import clone, AnalysisError, dotted_name, norm
 
 MAX_PATHS = 4096
 
@@ -301,7 +301,7 @@ class _Expand(ast.NodeTransformer):
         if k is not None and isinstance(getattr(node, 'ctx', None), ast.Load) and k in self.binds and self.depth > 0:
             d = self.binds[k]
             if d.expr is not None and (self.only is None or self.only(k)):
-                return _Expand(d.binds, self.only, self.depth - 1).visit(copy.deepcopy(d.expr))
+                return _Expand(d.binds, self.only, self.depth - 1).visit(clone(d.expr))
         return None
 
     def visit_Name(self, node):
@@ -315,7 +315,7 @@ class _Expand(ast.NodeTransformer):
 
 def expand(expr: ast.AST, binds: Dict[str, Def], only: Callable[[str], bool] = None, depth: int = 6) -> ast.AST:
     """Substituted copy of a (small) expression: names replaced by their current definitions, bounded depth."""
-    return ast.fix_missing_locations(_Expand(binds, only, depth).visit(copy.deepcopy(expr)))
+    return ast.fix_missing_locations(_Expand(binds, only, depth).visit(clone(expr)))
 
 
 def expand_def(d: Def, only=None, depth: int = 6) -> Optional[ast.AST]:
